@@ -562,45 +562,211 @@ func checkDepositCache(p *an.Prog, r *an.Run) {
 	}
 	r.Analysed(an.FuncName(set))
 	var bad []string
-	var upd *ssa.MapUpdate
-	an.AllInstrs(set, func(in ssa.Instruction) {
+	// the function that holds the map update: Set itself or a helper it calls (a lock-held setter shared with Get)
+	isCacheUpd := func(in ssa.Instruction) *ssa.MapUpdate {
 		if mu, ok := in.(*ssa.MapUpdate); ok && an.FieldOf(stripLoad(mu.Map)) != nil && an.Ident(an.FieldOf(stripLoad(mu.Map)).Name()) == "cache" {
+			return mu
+		}
+		return nil
+	}
+	holder := set
+	var upd *ssa.MapUpdate
+	var viaCall ssa.CallInstruction
+	an.AllInstrs(set, func(in ssa.Instruction) {
+		if mu := isCacheUpd(in); mu != nil {
 			upd = mu
 		}
 	})
 	if upd == nil {
+		for _, c := range an.Calls(set, false) {
+			h := c.Common().StaticCallee()
+			if h == nil || !p.InRepo(h) || h.Pkg != set.Pkg || len(h.Blocks) == 0 {
+				continue
+			}
+			an.AllInstrs(h, func(in ssa.Instruction) {
+				if mu := isCacheUpd(in); mu != nil {
+					upd, holder, viaCall = mu, h, c
+				}
+			})
+		}
+	}
+	if upd == nil {
 		bad = append(bad, "Set does not write the cache")
 	} else {
-		isUpd := func(in ssa.Instruction) bool { return in == ssa.Instruction(upd) }
-		// a nil amount carries no balance: returning early for it is not a skipped event
-		cut := map[an.Edge]bool{}
-		an.AllInstrs(set, func(in ssa.Instruction) {
-			iff, ok := in.(*ssa.If)
-			if !ok {
-				return
-			}
-			if b, ok := iff.Cond.(*ssa.BinOp); ok && (b.Op == token.EQL || b.Op == token.NEQ) {
-				isNil := func(v ssa.Value) bool { c, ok := v.(*ssa.Const); return ok && c.IsNil() }
-				if (b.X == ssa.Value(set.Params[2]) && isNil(b.Y)) || (b.Y == ssa.Value(set.Params[2]) && isNil(b.X)) {
-					i := 0
-					if b.Op == token.NEQ {
-						i = 1
+		// parameters of the holder that carry the account and the amount
+		keyPrm, amtPrm := set.Params[1], set.Params[2]
+		if viaCall != nil {
+			keyPrm, amtPrm = nil, nil
+			for i, a := range viaCall.Common().Args {
+				if i < len(holder.Params) {
+					if a == ssa.Value(set.Params[1]) {
+						keyPrm = holder.Params[i]
 					}
-					cut[an.Edge{From: iff.Block(), To: iff.Block().Succs[i]}] = true
+					if a == ssa.Value(set.Params[2]) {
+						amtPrm = holder.Params[i]
+					}
 				}
 			}
-		})
-		if in := pathFromBlockCut(set, set.Blocks[0], func(x ssa.Instruction) bool { return an.IsReturn(x) && !an.Dominates(upd, x) }, cut); in != nil && pathFromBlock(set, set.Blocks[0], isUpd, an.IsReturn) != nil {
-			bad = append(bad, "Set can return at "+p.Pos(in.Pos())+" without recording the amount: a Balance event it skips (e.g. the zero balance after a settlement) leaves the old deposit cached, and it is paid again")
+			if keyPrm == nil || amtPrm == nil {
+				bad = append(bad, "Set does not hand its account and amount on to "+an.FuncName(holder))
+			}
+			// the helper is called on every path of Set
+			isCall := func(in ssa.Instruction) bool { return in == viaCall.(ssa.Instruction) }
+			if in := pathFromBlock(set, set.Blocks[0], isCall, an.IsReturn); in != nil {
+				bad = append(bad, "Set can return at "+p.Pos(in.Pos())+" without recording the amount")
+			}
 		}
-		if stripConv(upd.Key) != ssa.Value(set.Params[1]) {
-			bad = append(bad, "the cache entry is not keyed by the account it was given")
-		}
-		if !p.Derives(0, upd.Value).HasParam(set.Params[2]) {
-			bad = append(bad, "the cached value is not the amount it was given")
+		if keyPrm != nil && amtPrm != nil {
+			isUpd := func(in ssa.Instruction) bool { return in == ssa.Instruction(upd) }
+			// a nil amount carries no balance: returning early for it is not a skipped event
+			cut := map[an.Edge]bool{}
+			an.AllInstrs(holder, func(in ssa.Instruction) {
+				iff, ok := in.(*ssa.If)
+				if !ok {
+					return
+				}
+				if b, ok := iff.Cond.(*ssa.BinOp); ok && (b.Op == token.EQL || b.Op == token.NEQ) {
+					isNil := func(v ssa.Value) bool { c, ok := v.(*ssa.Const); return ok && c.IsNil() }
+					if (b.X == ssa.Value(amtPrm) && isNil(b.Y)) || (b.Y == ssa.Value(amtPrm) && isNil(b.X)) {
+						i := 0
+						if b.Op == token.NEQ {
+							i = 1
+						}
+						cut[an.Edge{From: iff.Block(), To: iff.Block().Succs[i]}] = true
+					}
+				}
+			})
+			if in := pathFromBlockCut(holder, holder.Blocks[0], func(x ssa.Instruction) bool { return an.IsReturn(x) && !an.Dominates(upd, x) }, cut); in != nil && pathFromBlock(holder, holder.Blocks[0], isUpd, an.IsReturn) != nil {
+				bad = append(bad, "Set can return at "+p.Pos(in.Pos())+" without recording the amount: a Balance event it skips (e.g. the zero balance after a settlement) leaves the old deposit cached, and it is paid again")
+			}
+			if stripConv(upd.Key) != ssa.Value(keyPrm) {
+				bad = append(bad, "the cache entry is not keyed by the account it was given")
+			}
+			if !p.Derives(0, upd.Value).HasParam(amtPrm) {
+				bad = append(bad, "the cached value is not the amount it was given")
+			}
 		}
 	}
 	r.Check(len(bad) == 0, "deposit-cache", an.FuncName(set), set.Pos(), "every balance event reaches the cache", "%s", strings.Join(bad, "; "))
+
+	// fill race: Get reads the chain outside the lock and then stores what it read. A Balance event delivered through Set
+	// in between is newer than that read: the store in Get must be conditional on "nothing was stored meanwhile", i.e.
+	// control-dependent on comparing a counter/version field that every store advances, sampled before the read, with
+	// its value afterwards
+	if get := p.Method("pool/payment", "balanceCache", "Get"); get != nil && upd != nil {
+		r.Analysed(an.FuncName(get))
+		var fb []string
+		// the unlocked fetch: a dynamic call (through the Getter field / a local copy of it)
+		var fetch ssa.CallInstruction
+		for _, c := range an.Calls(get, false) {
+			if c.Common().StaticCallee() == nil && !c.Common().IsInvoke() {
+				if _, isB := c.Common().Value.(*ssa.Builtin); !isB {
+					fetch = c
+				}
+			}
+		}
+		// the store of the fetched value
+		var fill ssa.Instruction
+		an.AllInstrs(get, func(in ssa.Instruction) {
+			if mu := isCacheUpd(in); mu != nil && fetch != nil && p.Derives(0, mu.Value).HasValue(fetch.Value()) {
+				fill = in
+			}
+			if c, ok := in.(ssa.CallInstruction); ok && fetch != nil {
+				if h := c.Common().StaticCallee(); h != nil && (h == holder || h == set) {
+					for _, a := range c.Common().Args {
+						d := p.Derives(0, a)
+						if d.HasValue(fetch.Value()) || derivesFromCallValue(d, fetch.Value()) {
+							fill = in
+						}
+					}
+				}
+			}
+		})
+		if fetch == nil || fill == nil {
+			fb = append(fb, "Get does not fetch a missing deposit and cache it (shape not recognised)")
+		} else {
+			// fields advanced by every store (written in the holder of the map update)
+			ver := map[string]bool{}
+			an.AllInstrs(holder, func(in ssa.Instruction) {
+				if st, ok := in.(*ssa.Store); ok {
+					if fv := an.FieldOf(st.Addr); fv != nil && an.Dominates(in, upd) || (fv != nil && an.Dominates(upd, in)) {
+						if b, isB := fv.Type().Underlying().(*types.Basic); isB && b.Info()&types.IsInteger != 0 {
+							ver[fv.Name()] = true
+						}
+					}
+				}
+			})
+			guarded := false
+			for _, cc := range an.ControllingIfs(fill.Block()) {
+				b, ok := cc.If.Cond.(*ssa.BinOp)
+				if !ok || (b.Op != token.EQL && b.Op != token.NEQ) {
+					continue
+				}
+				isVerLoad := func(v ssa.Value) (ssa.Instruction, bool) {
+					ld, ok := v.(*ssa.UnOp)
+					if !ok || ld.Op != token.MUL {
+						return nil, false
+					}
+					fv := an.FieldOf(ld.X)
+					return ld, fv != nil && ver[fv.Name()]
+				}
+				lx, okx := isVerLoad(b.X)
+				ly, oky := isVerLoad(b.Y)
+				if okx && oky {
+					before := an.Dominates(lx, fetch.(ssa.Instruction)) || an.Dominates(ly, fetch.(ssa.Instruction))
+					after := an.Dominates(fetch.(ssa.Instruction), lx) || an.Dominates(fetch.(ssa.Instruction), ly)
+					if before && after {
+						guarded = true
+					}
+				}
+			}
+			// the guard may sit on the path that *skips* the fill: the fill is then reached from the "unchanged" edge
+			if !guarded {
+				an.AllInstrs(get, func(in ssa.Instruction) {
+					iff, ok := in.(*ssa.If)
+					if !ok || !an.Dominates(fetch.(ssa.Instruction), in) {
+						return
+					}
+					b, ok := iff.Cond.(*ssa.BinOp)
+					if !ok || (b.Op != token.EQL && b.Op != token.NEQ) {
+						return
+					}
+					nVer := 0
+					for _, v := range []ssa.Value{b.X, b.Y} {
+						if ld, ok := v.(*ssa.UnOp); ok && ld.Op == token.MUL {
+							if fv := an.FieldOf(ld.X); fv != nil && ver[fv.Name()] {
+								nVer++
+							}
+						}
+					}
+					if nVer == 2 && iff.Block().Dominates(fill.Block()) {
+						// on the "changed" edge an existing entry must win: the fill is not reachable from that edge
+						// while an entry for the account exists (lookup hit) — approximated: the changed edge leads to a
+						// cache lookup whose hit edge returns without passing the fill
+						chg := 1
+						if b.Op == token.NEQ {
+							chg = 0
+						}
+						hitReturns := false
+						for _, blk := range reachBlocksNoLoop(iff.Block().Succs[chg]) {
+							for _, x := range blk.Instrs {
+								if lk, ok := x.(*ssa.Lookup); ok && lk.CommaOk && memMapField(lk.X) == "cache" {
+									hitReturns = true
+								}
+							}
+						}
+						if hitReturns {
+							guarded = true
+						}
+					}
+				})
+			}
+			if !guarded {
+				fb = append(fb, "Get stores what it read from the chain ("+p.Pos(fill.Pos())+") without checking that no balance event was stored while the read was in flight ("+p.Pos(fetch.Pos())+"): the older value replaces the event's newer one — after a settlement the pre-settlement deposit is cached again and paid twice")
+			}
+		}
+		r.Check(len(fb) == 0, "deposit-cache", "fill-race", get.Pos(), "a fetched deposit never overwrites a newer event", "%s", strings.Join(fb, "; "))
+	}
 
 	// key agreement: the contract's Balance events name the account as Address.Hex() (checksummed), lookups on the chain
 	// accept any spelling (HexToAddress), and request.Verify compares addresses case-insensitively — so a wallet may
